@@ -10,6 +10,7 @@ import os, sys, signal
 flags = sys.argv[3]
 if 'h' in flags: signal.signal(signal.SIGHUP, signal.SIG_IGN)
 if 'i' in flags: signal.signal(signal.SIGINT, signal.SIG_IGN)
+else: signal.signal(signal.SIGINT, signal.SIG_DFL)      # the kernel's default action, not Python's KeyboardInterrupt (which prints a traceback to the terminal)
 ctl = os.open(sys.argv[1], os.O_RDONLY); ack = os.open(sys.argv[2], os.O_WRONLY)
 os.write(ack, b'R')
 if 's' in flags: os.kill(os.getpid(), signal.SIGSTOP)
